@@ -61,7 +61,7 @@ def configs(tier):
                 # edges carry networkx's conventional attribute 'weight', but no transmission_weight is named: plain tau on every edge
                 out.append(dict(family='tree', entry='SIR_pair_based_pure_IC', graph=g, I0=I0, R0=R0, weighted=False, order=4, unrelated_weight_attr=True,
                                 tags=['tree', g, 'unrelated-weight-attribute']))
-            if g in ('P3', 'S3') and len(I0) == 1 and not R0:
+            if g in ('P3', 'S3') and len(I0) == 1 and len(R0) <= 1:
                 nl = {'P3': [0, 2, 1], 'S3': [1, 0, 3, 2]}[g]
                 out.append(dict(family='tree', entry='SIR_pair_based_pure_IC', graph=g, I0=I0, R0=R0, weighted=False, order=4, nodelist=nl,
                                 tags=['tree', g, 'nodelist']))
